@@ -146,20 +146,68 @@ class GateCtx:
             return None
         return m
 
-    def ungated_path(self, d, site, passes):
+    def ungated_path(self, d, site, passes, starts=None):
         """witness of a path from a definition of d (or the function entry for parameters) to `site` avoiding pass edges"""
         g = self.g
         eo = lambda blk, k, s_: (blk["b"], k) not in passes
         tgt = lambda x: x["i"] == site["i"]
-        starts = [g.after(n) for n in self.defs_of(d)]
-        starts = [s for s in starts if s is not None]
-        if not starts:
-            starts = [g.entry_pos()]
+        if starts is None:
+            starts = [g.after(n) for n in self.defs_of(d)]
+            starts = [s for s in starts if s is not None]
+            if not starts:
+                starts = [g.entry_pos()]
         for st in starts:
             w = g.search_consistent(st, is_target=tgt, edge_ok=eo)
             if w is not None:
                 return w
         return None
+
+    def gated(self, d, site, matcher_of, depth=0):
+        """None when `site` is gated for variable d: every definition D of d either reaches the site only through a pass
+        edge of the gate on d, or computes d from other locals r and D itself is gated for r (the gate was applied to the
+        variable d is derived from).  Otherwise a witness path."""
+        passes = self.pass_edges(matcher_of(d))
+        defs = self.defs_of(d)
+        if not defs:
+            return self.ungated_path(d, site, passes)
+        for D in defs:
+            st = self.g.after(D)
+            if st is None:
+                continue
+            w = self.ungated_path(d, site, passes, starts=[st])
+            if w is None:
+                continue
+            # derived definition?
+            rhs = None
+            if D["k"] == "VarDecl" and D.get("c"):
+                rhs = D["c"][0]
+            elif D["k"] == "Assign":
+                rhs = D["c"][1]
+            srcs = []
+            if rhs is not None and depth < 3:
+                for x in walk(rhs):
+                    if x["k"] == "DeclRefExpr" and x.get("dk") == "var" and x.get("d") != d and "int" in (x.get("t") or "") and \
+                            x["d"] not in [y["d"] for y in srcs]:
+                        srcs.append(x)
+            ok = False
+            for r in srcs:
+                if self.gated(r["d"], D, matcher_of, depth + 1) is None:
+                    ok = True
+                    break
+            if not ok:
+                return w
+        return None
+
+    def defined_by_address_only(self, d):
+        """the variable never receives a value by assignment: it is filled through `&v` out-arguments (stored lists)"""
+        if self.defs_of(d) and any((n["k"] != "VarDecl" or n.get("c")) for n in self.defs_of(d)):
+            return False
+        for n in self.f.walk():
+            if n["k"] == "UnOp" and n.get("op") == "&":
+                x = n["c"][0]
+                if x is not None and x["k"] == "DeclRefExpr" and x.get("d") == d:
+                    return True
+        return False
 
 
 # ------------------------------------------------------------------------------------------
